@@ -1,4 +1,5 @@
-(* Extraction of the C09 ring model.  ExtrOcamlBasic only: N/positive/nat stay Coq datatypes. *)
-From Slock Require Import Repl.Ring.
+(* Extraction of the C09 ring model and of the full-transfer boundary (Transfer.send_files).
+   ExtrOcamlBasic only: N/positive/nat stay Coq datatypes. *)
+From Slock Require Import Repl.Sync Repl.Transfer Repl.Ring.
 Require Import ExtrOcamlBasic.
-Extraction "model.ml" init_state mkid mkRcfg run dump.
+Extraction "model.ml" Ring.init_state Ring.mkid Ring.mkRcfg Ring.run Ring.dump Transfer.send_files.
